@@ -84,9 +84,13 @@ def run(rep, tier, seed, model_ok=True, effort=1):
                 "command), then the printed unified diff is applied by a strict applier and compared with a real run on an identical copy; exit codes "
                 "must agree when dry exits 0; non-trivial = distinct project whose dry run exits 0")
     items, meta = [], []
-    for i in range(n):
+    scripted = rwgen.scripted_specs()
+    for i in range(n + len(scripted)):
         legacy = r.random() < 0.25
-        spec = rwgen.gen_project(r, impl, legacy=legacy, allow_mixed=False, tree=True)
+        if i < len(scripted):
+            spec, legacy = scripted[i], False
+        else:
+            spec = rwgen.gen_project(r, impl, legacy=legacy, allow_mixed=False, tree=True)
         if not spec["old"]:
             continue
         use_vcs = r.random() < 0.5
